@@ -55,16 +55,40 @@ var c21Peers = []c21Peer{
 // never added: used for negative Exists / Remove-of-absent probes (proximity 3).
 var c21Ghost = c21Peer{"ghost", c21Addr(3, 0x77)}
 
-var c21Batches = [][]int{
-	{},           // empty batch
-	{0, 1},       // two addresses of one bin
-	{0, 2},       // two bins
-	{0, 0},       // duplicate inside the batch
-	{0, 1, 0},    // duplicate inside the batch, interleaved
-	{3, 4, 5},    // one bin when capped (maxBins 2,4), three bins otherwise
-	{4, 4},       // duplicate of an address whose proximity is >= maxBins
-	{1, 2, 3, 4}, // wide batch
-}
+// Batched Add shapes. Besides the plain ones, in-batch repeats are generated systematically for a
+// repeated address X in an uncapped bin (a: bin 0) and in a capped bin (e: proximity 4 >= maxBins for
+// maxBins 2 and 4), with S = another address of X's bin (b for a; d for e when capped) and D, D2 =
+// addresses of other bins: adjacent, separated by a same-bin address, by a different-bin address, by two
+// addresses (both orders, two foreign bins), triple repeats, a repeat that does not start the batch,
+// trailing addresses after the repeat, and two interleaved repeated addresses. Whether X is already a
+// member when the batch arrives is decided by the preceding operations.
+var c21Batches = func() [][]int {
+	out := [][]int{
+		{},           // empty batch
+		{0, 1},       // two addresses of one bin
+		{0, 2},       // two bins
+		{3, 4, 5},    // one bin when capped (maxBins 2,4), three bins otherwise
+		{1, 2, 3, 4}, // wide batch
+	}
+	type roles struct{ x, s, d, d2 int }
+	for _, r := range []roles{{0, 1, 2, 3}, {4, 3, 0, 2}} {
+		x, s, d, d2 := r.x, r.s, r.d, r.d2
+		out = append(out,
+			[]int{x, x},          // adjacent
+			[]int{x, s, x},       // same-bin separator
+			[]int{x, d, x},       // different-bin separator
+			[]int{x, s, d, x},    // two separators
+			[]int{x, d, s, x},    //   ... other order
+			[]int{x, d, d2, x},   // two foreign bins in between
+			[]int{x, x, x},       // triple, adjacent
+			[]int{x, d, x, d, x}, // triple, separated, separator repeated too
+			[]int{d, x, x},       // repeat not at the start
+			[]int{d, x, s, x, d2}, // repeat in the middle, trailing address
+			[]int{x, d, x, s},    // trailing same-bin address after the repeat
+		)
+	}
+	return out
+}()
 
 // reference bin: leading zero bits of base XOR addr over the whole address,
 // capped at the last bin.
@@ -452,6 +476,42 @@ func TestVerifC21Ops(t *testing.T) {
 					}
 					if !ref[j] && len(s.peers[c21RefBin(c21Peers[j].addr, maxBins)]) > 0 {
 						grow = true
+					}
+				}
+				// situation tags for repeats of a new address: what lies between two occurrences
+				shape := c21Batches[bi]
+				for i, j := range shape {
+					if ref[j] {
+						continue
+					}
+					for i2 := i + 1; i2 < len(shape); i2++ {
+						if shape[i2] != j {
+							continue
+						}
+						same, other := false, false
+						for _, m := range shape[i+1 : i2] {
+							if m == j {
+								continue
+							}
+							if c21RefBin(c21Peers[m].addr, maxBins) == c21RefBin(c21Peers[j].addr, maxBins) {
+								same = true
+							} else {
+								other = true
+							}
+						}
+						switch {
+						case same && other:
+							x.Tag("batch-repeat-separated-by-same-and-other-bin")
+						case other:
+							x.Tag("batch-repeat-separated-by-other-bin")
+						case same:
+							x.Tag("batch-repeat-separated-by-same-bin")
+						default:
+							x.Tag("batch-repeat-adjacent")
+						}
+						if int(boson.Proximity(c21Base, c21Peers[j].addr.Bytes())) >= maxBins {
+							x.Tag("batch-repeat-of-capped-address")
+						}
 					}
 				}
 				opk = "batch-add"
